@@ -2,7 +2,7 @@ use crate::VueJsxTransformVisitor;
 use indexmap::{IndexMap, IndexSet};
 use std::borrow::Cow;
 use swc_core::{
-    common::{comments::Comments, EqIgnoreSpan, Span, Spanned, DUMMY_SP},
+    common::{comments::Comments, EqIgnoreSpan, Span, Spanned, SyntaxContext, DUMMY_SP},
     ecma::{
         ast::*,
         atoms::{atom, Atom},
@@ -23,10 +23,51 @@ struct PropIr {
     required: bool,
 }
 
+/// What is being resolved: a self- or mutually-referential declaration leads back to an entry
+/// that is still open.
+pub(crate) enum Resolving {
+    Named(Atom, SyntaxContext),
+    Indexed(TsIndexedAccessType),
+}
+
+impl Resolving {
+    fn same(&self, other: &Resolving) -> bool {
+        match (self, other) {
+            (Resolving::Named(a, ac), Resolving::Named(b, bc)) => a == b && ac == bc,
+            (Resolving::Indexed(a), Resolving::Indexed(b)) => a.eq_ignore_span(b),
+            _ => false,
+        }
+    }
+}
+
 impl<C> VueJsxTransformVisitor<C>
 where
     C: Comments,
 {
+    /// Marks `entry` as being resolved. A reference back to an entry that is still open (a
+    /// circular type) is reported and must not be followed.
+    fn begin_resolving(&self, entry: Resolving, span: Span) -> bool {
+        if self.resolving.borrow().iter().any(|open| open.same(&entry)) {
+            HANDLER.with(|handler| handler.span_err(span, "Circular type reference."));
+            return false;
+        }
+        self.resolving.borrow_mut().push(entry);
+        true
+    }
+
+    fn end_resolving(&self) {
+        self.resolving.borrow_mut().pop();
+    }
+
+    fn while_resolving<T>(&self, entry: Resolving, span: Span, f: impl FnOnce() -> T) -> Option<T> {
+        if !self.begin_resolving(entry, span) {
+            return None;
+        }
+        let result = f();
+        self.end_resolving();
+        Some(result)
+    }
+
     pub(crate) fn extract_props_type(&mut self, setup_fn: &ExprOrSpread) -> Option<Expr> {
         let mut defaults = None;
         let first_param_type = if let ExprOrSpread { expr, spread: None } = setup_fn {
@@ -415,13 +456,18 @@ where
             }) => {
                 let key = (ident.sym.clone(), ident.ctxt);
                 if let Some(aliased) = self.type_aliases.get(&key) {
-                    self.resolve_type_elements(aliased, props);
+                    self.while_resolving(Resolving::Named(key.0.clone(), key.1), *span, || {
+                        self.resolve_type_elements(aliased, props)
+                    });
                 } else if let Some(TsInterfaceDecl {
                     extends,
                     body: TsInterfaceBody { body, .. },
                     ..
                 }) = self.interfaces.get(&key)
                 {
+                    if !self.begin_resolving(Resolving::Named(key.0.clone(), key.1), *span) {
+                        return;
+                    }
                     props.extend(body.iter().filter_map(|element| match element {
                         TsTypeElement::TsPropertySignature(prop) => {
                             Some(RefinedTsTypeElement::Property(prop.clone()))
@@ -445,11 +491,12 @@ where
                                 &TsType::TsTypeRef(TsTypeRef {
                                     type_name: TsEntityName::Ident(ident.clone()),
                                     type_params: None,
-                                    span: DUMMY_SP,
+                                    span: ident.span,
                                 }),
                                 props,
                             )
                         });
+                    self.end_resolving();
                 } else if ident.ctxt.has_mark(self.unresolved_mark) {
                     match &*ident.sym {
                         "Partial" => {
@@ -572,11 +619,16 @@ where
                     });
                 }
             }
-            TsType::TsIndexedAccessType(TsIndexedAccessType {
-                obj_type,
-                index_type,
-                ..
-            }) => {
+            TsType::TsIndexedAccessType(
+                access @ TsIndexedAccessType {
+                    obj_type,
+                    index_type,
+                    ..
+                },
+            ) => {
+                if !self.begin_resolving(Resolving::Indexed(access.clone()), access.span) {
+                    return;
+                }
                 if let Some(ty) = self.resolve_indexed_access(obj_type, index_type) {
                     self.resolve_type_elements(&ty, props);
                 } else {
@@ -584,6 +636,7 @@ where
                         handler.span_err(ty.span(), "Unresolvable type.");
                     });
                 }
+                self.end_resolving();
             }
             TsType::TsFnOrConstructorType(TsFnOrConstructorType::TsFnType(TsFnType {
                 params,
@@ -635,7 +688,12 @@ where
                 ..
             }) => {
                 if let Some(aliased) = self.type_aliases.get(&(ident.sym.clone(), ident.ctxt)) {
-                    self.resolve_string_or_union_strings(aliased)
+                    self.while_resolving(
+                        Resolving::Named(ident.sym.clone(), ident.ctxt),
+                        ty.span(),
+                        || self.resolve_string_or_union_strings(aliased),
+                    )
+                    .unwrap_or_default()
                 } else if ident.ctxt.has_mark(self.unresolved_mark) {
                     HANDLER.with(|handler| {
                         handler.span_err(
@@ -668,7 +726,10 @@ where
             }) => {
                 let key = (ident.sym.clone(), ident.ctxt);
                 if let Some(aliased) = self.type_aliases.get(&key) {
-                    self.resolve_indexed_access(aliased, index)
+                    self.while_resolving(Resolving::Named(key.0.clone(), key.1), obj.span(), || {
+                        self.resolve_indexed_access(aliased, index)
+                    })
+                    .flatten()
                 } else if let Some(interface) = self.interfaces.get(&key) {
                     let mut properties = match index {
                         TsType::TsKeywordType(TsKeywordType {
@@ -1026,7 +1087,13 @@ where
             }) => {
                 let key = (ident.sym.clone(), ident.ctxt);
                 if let Some(aliased) = self.type_aliases.get(&key) {
-                    runtime_types.extend(self.infer_runtime_type(aliased));
+                    if let Some(types) = self.while_resolving(
+                        Resolving::Named(key.0.clone(), key.1),
+                        ty.span(),
+                        || self.infer_runtime_type(aliased),
+                    ) {
+                        runtime_types.extend(types);
+                    }
                 } else if let Some(TsInterfaceDecl {
                     body: TsInterfaceBody { body, .. },
                     ..
@@ -1101,13 +1168,20 @@ where
                 TsUnionOrIntersectionType::TsUnionType(TsUnionType { types, .. })
                 | TsUnionOrIntersectionType::TsIntersectionType(TsIntersectionType { types, .. }),
             ) => runtime_types.extend(types.iter().flat_map(|ty| self.infer_runtime_type(ty))),
-            TsType::TsIndexedAccessType(TsIndexedAccessType {
-                obj_type,
-                index_type,
-                ..
-            }) => {
-                if let Some(ty) = self.resolve_indexed_access(obj_type, index_type) {
-                    runtime_types.extend(self.infer_runtime_type(&ty));
+            TsType::TsIndexedAccessType(
+                access @ TsIndexedAccessType {
+                    obj_type,
+                    index_type,
+                    ..
+                },
+            ) => {
+                if let Some(Some(types)) =
+                    self.while_resolving(Resolving::Indexed(access.clone()), access.span, || {
+                        self.resolve_indexed_access(obj_type, index_type)
+                            .map(|ty| self.infer_runtime_type(&ty))
+                    })
+                {
+                    runtime_types.extend(types);
                 }
             }
             TsType::TsOptionalType(TsOptionalType { type_ann, .. }) => {
